@@ -14,6 +14,7 @@ from engine import pat
 from engine.util import own_nodes, calls_with_nodes, where
 
 RULES = {
+    "R-05.7": "names inside records are printed by Name.to_styled_text: its relativity decisions (\"@\" for the origin, dropping the final dot) are taken on the name that is printed (C01 R-01.7 adopted)",
     "R-05.1": "wire encoding of an accepted record cannot fail: every integer fed to struct.pack is a field validated to fit the format width, a bounded length, a masked value or a constant",
     "R-05.1t": "text production cannot fail: to_styled_text/to_text of record and helper classes contain no operation that can raise for a validated field (decode of arbitrary octets, int(), unguarded subscripts, division)",
     "R-05.2": "quoted character-strings: every octet the tokenizer treats specially inside quotes is escaped by dns.rdata._escapify; \\DDD uses 3 digits on both sides",
@@ -622,6 +623,7 @@ def run(model, rep, tier):
     # ---------------------------------------------------------------- R-05.5
     check_validators(model, rep, "R-05.5")
     rep.assume("constructor validators (Rdata._as_*) are the only way fields are set (C07 R-07.2); float fields are outside the interval evaluator")
+    rep.share(model, "C01", {"R-01.7"}, "R-05.7", "every embedded name of a record is rendered through Name.to_styled_text with the style's origin")
     rep.meta["explanation"] = (
         "Interval evaluation of every struct.pack argument in ~60 wire encoders against the ranges established by constructor validators (field table read from __init__), a local scan of every text "
         "producer for operations that can raise on validated data, folded escape-table comparison for quoted strings, and a per-field check that octet-wise printing is paired with octet-wise parsing. "
@@ -629,6 +631,8 @@ def run(model, rep, tier):
 
 
 WITNESSES = [
+    {"id": "c05-embedded-name-at-origin-prints-empty", "rule": "R-05.7", "file": "dns/name.py", "expect": "fires",
+     "old": "        if len(name.labels) == 0:\n            return \"@\"", "new": "        if len(self.labels) == 0:\n            return \"@\""},
     {"id": "c05-generic-always-relativized", "rule": "R-05.4", "file": "dns/rdata.py", "expect": "fires",
      "old": "                gorigin = None\n                if relativize:\n                    gorigin = relativize_to if relativize_to is not None else origin\n", "new": "                gorigin = origin\n"},
     {"id": "c05-escapify-unicode-isprintable", "rule": "R-05.2", "file": "dns/rdata.py", "expect": "fires",
